@@ -16,9 +16,26 @@ PLAN = {
         part("cli", "TestC01CLI", (25, 300), (8, 16)),
     ],
     "C02": [part("cli", "TestC02", (40, 2000), (16, 16), steps=30)],
+    "C03": [part("cli", "TestC03", (40, 2000), (16, 16), steps=30)],
     "C04": [part("cli", "TestC04", (60, 2500), (16, 16), steps=25)],
+    "C05": [
+        part("cli", "TestC05", (120, 4000), (8, 16)),
+        part("cli", "TestC05Histories", (30, 800), (8, 16), steps=30),
+    ],
     "C07": [part("cli", "TestC07", (40, 2000), (16, 16), steps=25)],
+    "C08": [part("cli", "TestC08", (40, 2000), (16, 16), steps=30)],
+    "C09": [part("cli", "TestC09", (40, 2000), (16, 16), steps=25)],
+    "C10": [
+        part("cli", "TestC10Exhaustive", (1, 1), (8, 16)),
+        part("cli", "TestC10", (25, 1200), (8, 16), steps=30),
+    ],
+    "C11": [part("cli", "TestC11", (30, 1500), (16, 16), steps=30)],
+    "C12": [part("cli", "TestC12CLI", (30, 1500), (4, 16))],
     "C13": [part("cli", "TestC13", (40, 2000), (16, 16), steps=25)],
+    "C14": [part("cli", "TestC14", (30, 600), (16, 16), steps={Q: 25, T: 60})],
+    "C17": [part("cli", "TestC17", (40, 2000), (16, 16), steps=30)],
+    "C18": [part("cli", "TestC18", (50, 3000), (16, 16), steps={Q: 30, T: 40})],
+    "C20": [part("cli", "TestC20", (60, 2500), (16, 16), steps=15)],
 }
 
 LEVEL = {"C15": "fault_enumeration", "C16": "fault_enumeration"}
@@ -29,6 +46,43 @@ RULES = {
            "object.NewObject/Write/GetObject; CLI: files written, hash-object/add/cat-file, re-add, same bytes under "
            "a second name, commit. Non-trivial = payload non-empty and hostile (contains NUL / invalid UTF-8 / "
            "header look-alike / > 4 KiB / incompressible); distinct by (kind, sha1(data)).",
+    "C02": "Scenario machine (profile commit): generated histories; one evaluation = one scenario. Non-trivial = a "
+           "successful commit whose snapshot has >= 2 paths incl. a nested one, or a between-sibling family, or a "
+           "parent; distinct by hash of (sorted staged paths, has-parent, branch count).",
+    "C03": "Scenario machine (profile hostile). Non-trivial = state after a step of a scenario that already has >= 1 "
+           "commit and >= 1 hostile or refused command; distinct by hash of the command skeleton so far.",
+    "C04": "Scenario machine (profile stage). Non-trivial = add/rm on a non-empty index whose arguments contain a "
+           "directory, a deleted-but-tracked path or a repeat; distinct by (index paths, arguments, tree shape).",
+    "C05": "Crafted staging areas: path sets (depth 1..4, confusable alphabet) x 20-byte ids (uniform + planted "
+           "0x00/0x20/0x0a/0x09/0x2f at offsets 0,9,19); histories with resets to recorded commits. Non-trivial = "
+           ">= 3 entries with a nested directory, or a between-sibling family, or a space in a name, or a hostile id, "
+           "or the empty snapshot; distinct by hash of the (path,id) set.",
+    "C07": "Scenario machine (profile diff). Non-trivial = staged difference with >= 2 kinds, or a between-sibling "
+           "family present, or the refused-empty-commit path taken; distinct by (HEAD snapshot, staging area).",
+    "C08": "Scenario machine (profile reset). Non-trivial = successful reset to n >= 1, or a refused one; distinct by "
+           "(reflog length, mode, n, perturbed?, tracked paths) resp. the refused argument list.",
+    "C09": "Scenario machine (profile restore). Non-trivial = argument is a directory or a deleted path and at least "
+           "one file/entry actually changes; distinct by (index, working tree, arguments).",
+    "C10": "Exhaustive: every sequence over the alphabet {branch/-d/-r/switch/switch -c x 3 names, update-ref x 3 names "
+           "x 2 commits, commit, reset, switch main, branch -d main} up to the depth bound from 3 start states (node "
+           "count reported); random: rapid sequences. Non-trivial = sequence with >= 2 mutating operation kinds and "
+           ">= 1 refusal; distinct by sequence hash.",
+    "C11": "Scenario machine (profile journal). Non-trivial = journal with >= 3 entries of >= 2 kinds, or a hostile "
+           "message, or a rename; distinct by (kind sequence, message class, rename).",
+    "C12": "API: Sign.String -> commit bytes -> NewCommit over names x e-mails x instants x all 105 offsets x messages; "
+           "CLI: commit under a TZif file per offset, cat-file -p, log. Non-trivial = offset != 0 or multi-line / "
+           "non-ASCII message; distinct by (offset, name, message).",
+    "C13": "Scenario machine (profile worktree). Non-trivial = at least two of {modified, deleted, untracked} "
+           "non-empty, or an identical-rewrite / touch step; distinct by (index, tree shape, ignore list).",
+    "C14": "Scenario machine (profile log). Non-trivial = chain length >= 3 with explicit -n, or a history containing "
+           "a reset; distinct by (length, k, has-reset, branch count).",
+    "C17": "Scenario machine (profile ignore). Non-trivial = add of '.' or of a directory containing at least one "
+           "ignored/.goit path and at least one ordinary path; distinct by (tree shape, ignore list, arguments).",
+    "C18": "Grammar over 19 sub-commands x flags x argument classes; one evaluation = one scenario of ~30 command "
+           "lines. Non-trivial = command line run against a state other than 'one commit, clean', or invalid by "
+           "construction; distinct by (sub-command, flags, argument classes, state class).",
+    "C20": "Scenario machine (profile config). Non-trivial = >= 2 keys in >= 2 sections written, or a special value, "
+           "or a local/global override exercised, or the unset-identity refusal; distinct by write sequence.",
 }
 
 ASSUMPTIONS = {
